@@ -48,6 +48,20 @@ def base_scenarios(rng, tier):
     cs = dev("csrc", cost=50_000)
     cs["beh"]["outs"] = [{"port": "o", "kind": "const", "v": 5}]
     out.append({"components": [cs, dev("csnk", {"i": ["csrc", "o"]}, cost=50_000), dev("cper", cb={"kind": "period", "p": P}, cost=50_000)], "n_ticks": 3})
+    # interrupting devices that sit two and three steps BELOW a root of the same tick whose output does not change: inside a
+    # system every tick is also rooted at `external` (here fed by a constant), at top level the interrupt may coincide with
+    # the callback of the constant source - the device is a root of that tick AND downstream of a component that is passed over
+    kc = dev("kconst", cb={"kind": "period", "p": P}, cost=20_000)
+    kc["beh"]["outs"] = [{"port": "o", "kind": "const", "v": 2}]
+    chain = lambda first: [dev("k1", {"i": first}, cost=30_000), dev("k2", {"i": ["k1", "o"]}, cost=30_000), dev("k3", {"i": ["k2", "o"]}, cost=30_000)]  # noqa: E731
+    kflat = {"components": [kc] + chain(["kconst", "o"]), "n_ticks": 3, "same_instant_as": "kconst"}
+    ksys = {"components": [copy.deepcopy(kc), {"name": "ksys", "kind": "sys", "inputs": {"x": ["kconst", "o"]}, "expose": {"y": ["k3", "o"]},
+                                               "components": chain(["external", "x"])}, dev("kout", {"i": ["ksys", "y"]}, cost=20_000)], "n_ticks": 3}
+    for scn_ in (kflat, ksys):
+        for d in S.devices(scn_):
+            if d["name"] in ("k1", "k2", "k3"):
+                d["beh"]["outs"] = [{"port": "o", "kind": "const", "v": 1}]
+        out.append(scn_)
     # a purely interrupt-driven system (no inner callback is ever pending) next to a periodic top-level device:
     # whatever the system answers carries no call_at of its own
     out.append({"components": [dev("per", cb={"kind": "period", "p": 2 * P}, cost=50_000),
